@@ -498,7 +498,7 @@ func decodeResponseBody[R any](simpleAPISelf *SimpleAPIDef, response *APIRespons
 func (simpleAPISelf *SimpleAPIDef) replacePathParams(relativeURL string, pathParam PathParam) string {
 	finalURL := relativeURL
 	for k, v := range pathParam {
-		finalURL = strings.ReplaceAll(relativeURL, fmt.Sprintf("{%s}", k), fmt.Sprintf("%v", v))
+		finalURL = strings.ReplaceAll(finalURL, fmt.Sprintf("{%s}", k), fmt.Sprintf("%v", v))
 	}
 	return simpleAPISelf.BaseURL + "/" + finalURL
 }
